@@ -235,7 +235,7 @@ def run_world(repo: Repo, val: dict, policy: str, requests=None) -> World:
             w.add_client(s, teams[s])
     else:
         requests(w)
-    w.run(timeout=float(os.environ.get('SA_SESSION_TIMEOUT', '300')))
+    w.run(timeout=float(os.environ.get('SA_SESSION_TIMEOUT', '120')))
     return w
 
 
